@@ -854,3 +854,99 @@ func certainlyFails(ret *ssa.Return) bool {
 	}
 	return false
 }
+
+// ---------------------------------------------------------------------------
+// R82: the value bytes of an existing cell are never written.
+//
+// C13: "older versions are kept"; C06 / C01: a row is exactly what the applied
+// mutations made it.  Cell objects and their value slices are shared between a
+// row, its copies and what is stored back (copyRow shares Cell pointers; R36
+// forbids assigning a Cell's fields).  Writing *into* the bytes of an existing
+// cell's Value — binary.BigEndian.PutUint64(prev, …), copy(prev, …), prev[i] = … —
+// changes the older version that must be kept: an increment that encodes its
+// result into the previous cell's buffer stores both versions with the new sum.
+// ---------------------------------------------------------------------------
+
+func R82() Rule {
+	return Rule{Name: "R82", Run: func(c *core.Ctx) {
+		P := c.P
+		if P.SPkgs[core.PkgBttest] == nil {
+			return
+		}
+		isCellValue := func(v ssa.Value) bool {
+			ld, ok := v.(*ssa.UnOp)
+			if !ok || ld.Op != token.MUL {
+				return false
+			}
+			fa, ok := ld.X.(*ssa.FieldAddr)
+			if !ok {
+				return false
+			}
+			owner := core.NamedOf(fa.X.Type())
+			_, fname, _ := core.FieldName(fa)
+			return owner != nil && owner.Obj().Name() == "Cell" && protoPkgs[pkgPathOfNamed(owner)] && fname == "Value"
+		}
+		fromCell := func(v ssa.Value) bool {
+			// through reslicing as well: prev[:8] is still the cell's buffer
+			seen := map[ssa.Value]bool{}
+			var rec func(v ssa.Value, d int) bool
+			rec = func(v ssa.Value, d int) bool {
+				if d > 4 {
+					return false
+				}
+				if sl, ok := core.Strip(v).(*ssa.Slice); ok {
+					return rec(sl.X, d+1)
+				}
+				return flowsFrom(P, v, isCellValue, seen, 0)
+			}
+			return rec(v, 0)
+		}
+		n, nBad := 0, 0
+		for _, fn := range P.SrcFuncs(core.PkgBttest) {
+			k := 0
+			for _, b := range fn.Blocks {
+				for _, in := range b.Instrs {
+					var target ssa.Value
+					what := ""
+					switch x := in.(type) {
+					case *ssa.Store:
+						if ia, ok := x.Addr.(*ssa.IndexAddr); ok {
+							if sl, isSl := ia.X.Type().Underlying().(*types.Slice); isSl && isByte(sl.Elem()) {
+								target, what = ia.X, "an element assignment"
+							}
+						}
+					case ssa.CallInstruction:
+						ci := core.Call(x)
+						if ci == nil {
+							continue
+						}
+						if bi, ok := ci.Common.Value.(*ssa.Builtin); ok && bi.Name() == "copy" && len(ci.Common.Args) == 2 {
+							if sl, isSl := ci.Common.Args[0].Type().Underlying().(*types.Slice); isSl && isByte(sl.Elem()) {
+								target, what = ci.Common.Args[0], "copy"
+							}
+						}
+						if ci.Static != nil && ci.Static.Pkg != nil && ci.Static.Pkg.Pkg.Path() == "encoding/binary" && len(ci.Static.Name()) > 3 && ci.Static.Name()[:3] == "Put" {
+							args := ci.Args()
+							if len(args) >= 1 {
+								target, what = args[0], "binary."+ci.Static.Name()
+							}
+						}
+					}
+					if target == nil {
+						continue
+					}
+					n++
+					if fromCell(target) {
+						nBad++
+						k++
+						c.Fn(core.FuncName(core.Root(fn)))
+						c.Bad("R82", fmt.Sprintf("%s/write-into-cell-value#%d", core.FuncName(core.Root(fn)), k), in.Pos(), "%s writes into a byte slice that can be the Value of an existing cell: cells and their value buffers are shared between a row, its copies and the stored versions, so the older version that has to be kept changes with it (an increment that encodes its sum into the previous cell's buffer stores both versions with the new value)", what)
+					}
+				}
+			}
+		}
+		if nBad == 0 {
+			c.Ok("R82", "no-write-into-cell-values", token.NoPos, n > 0, "no byte-level write (%d sites examined) targets a buffer that can be an existing cell's Value", n)
+		}
+	}}
+}
